@@ -299,7 +299,7 @@ func c17h(c *Ctx) {
 			}
 			nErr++
 			key := fmt.Sprintf("errors-end-the-run/%s@%s#%d", fn.Name(), calleeName(call), c.T(fn).callOrd[ci])
-			if errV == nil || errV.Referrers() == nil {
+			if errV == nil || len(liveReferrers(errV)) == 0 {
 				c.Bad(key, c.W.Pos(call.Pos()), fn.Name()+" ignores the error of "+calleeName(call))
 				continue
 			}
@@ -309,7 +309,7 @@ func c17h(c *Ctx) {
 				if v.Referrers() == nil || depth > 3 {
 					return
 				}
-				for _, r := range *v.Referrers() {
+				for _, r := range liveReferrers(v) {
 					switch y := r.(type) {
 					case *ssa.Return:
 						handled = true
